@@ -50,14 +50,35 @@ EXCLUDE = [
     (r'^glm_op_mul_(i32|u32)_', r'^sse2$',
      'integer * at SSE2 (_mm_mul_epu32 on even/odd lanes + shuffles): equivalence of the 32x32->64 multipliers with the 32-bit product is out of '
      'reach of z3 and SAT within the timeouts (undecided, not refuted; the SSE4.1/AVX2 _mm_mullo_epi32 path is claimed in the thorough tier)'),
+    (r'^glm_mod_f32_v[vs]_v4$', r'^sse2$',
+     'mod(vec4) at SSE2: x - y * floor(x / y) in the pure order, with the (x + 2^23) - 2^23 floor: the relational abstraction of * and / fails (a NaN '
+     'quotient reaches the uninterpreted product with a different payload on the two sides) and the exact multiplier/divider instance times out; '
+     'undecided, not refuted: the SSE2 floor itself is claimed (glm_floor/ceil/fract_f32_v_v4), mod is claimed at SSE4.1/AVX2'),
     (r'^glm_dot_bits_v4_f32$', r'^sse2$',
      'bit-exact evaluation order of dot(vec4): at SSE2 glm_vec1_dot adds (x*x+z*z)+(y*y+w*w), the pure code (x*x+y*y)+(z*z+w*w); the property '
      'allows multi-term float expressions to differ by rounding, so the bitwise clause demands more than the property (the kind-R contract '
      'glm_dot_v4_f32 is kept; at SSE4.1 (haddps) and AVX (dpps) the order is the pure one and the bitwise contract is claimed, thorough tier)'),
+    (r'^glm_(refract|faceforward)_(bits|tir)_v4_f32$', r'^sse2$',
+     'bit-exact branch contracts of refract/faceforward(vec4) at SSE2: their clauses take the branch condition from glm::dot(N, I) stored by the same '
+     'shim, which in the pure build (and at SSE4.1/AVX) is bit-identical to the dot computed inside refract/faceforward; at SSE2 glm::dot is '
+     'glm_vec1_dot ((x+z)+(y+w)) while refract/faceforward use glm_vec4_dot ((x+y)+(z+w), the pure order), so the stored dot is a differently rounded '
+     'number and the clause premise is not the decision the code takes (contract assumption, not a code defect); claimed instead at SSE2: the '
+     'four result components equal those of the GLM_FORCE_PURE extraction bit for bit (relational contracts on glm_refract_bits_v4_f32 / '
+     'glm_faceforward_bits_v4_f32), which includes the branch decision'),
+    (r'^glm_faceforward_v4_f32$', r'.',
+     'faceforward(vec4) over the reals: the SIMD code selects with sign masks (and/andnot/xor on the float bits), which has no real-arithmetic '
+     'meaning (not eligible); the kind-F contract glm_faceforward_bits_v4_f32 states the result bit-exactly (N when dot < 0, -N otherwise)'),
     (r'^glm_normalize_v4_f32$', r'.',
      'normalize(vec4) over the reals: glm_vec4_normalize multiplies by _mm_rsqrt_ps, a hardware approximation without real-arithmetic meaning '
      '(not eligible); the defect itself - highp normalize uses the 12-bit approximation - is caught bit-level by the relational contract '
      'glm_normalize_v4_f32 [rel] against the pure build'),
+]
+# Shims whose excluded contract is replaced by a cross-build relational contract "SIMD extraction == GLM_FORCE_PURE extraction, bitwise
+# (NaN == NaN)": (regex over the function name, regex over the ISA tag, number of leading out[] elements compared or None = all)
+REL = [
+    (r'^glm_fma_f32_vvv_v[34]$', r'.', None),
+    (r'^glm_normalize_v4_f32$', r'.', None),
+    (r'^glm_(refract|faceforward)_bits_v4_f32$', r'.', 4),
 ]
 # expensive obligations measured on the SIMD extractions: thorough tier only (regex over the function name)
 SLOW = r'^glm_(mirrorRepeat|mirrorClamp)_f32_v_v4$|^glm_op_mul_(i32|u32)_|^glm_mix_f32_vv[vs]_v4$'
@@ -80,7 +101,7 @@ def same32(e):
     return 'cspec_same32(%s, %s)' % (m.group(1), m.group(2)) if m else e
 
 
-def adapt(modname, c2):
+def adapt(modname, c2, isa):
     """clause adaptations described in the module docstring; returns new lists (the source contract is shared with its module)"""
     ens = list(c2.ensures)
     req = list(c2.requires)
@@ -92,6 +113,10 @@ def adapt(modname, c2):
             # C (F.10.9.2) and LLVM minnum/maxnum leave the sign of fmin/fmax(+0, -0) unspecified: the compiler may commute the operands of the
             # vectorised call, so neither build has a defined zero sign there (the T-check tolerates it for the same reason): numeric equality
             ens = [(n, e.replace('cspec_same32(', 'cspec_samev32(')) for n, e in ens]
+        if isa == 'sse2' and re.match(r'^glm_(floor|ceil|round|fract|mod|repeat|mirrorClamp|mirrorRepeat|iround|uround)_f32_', c2.fn):
+            # the SSE2 fallback of glm_vec4_round is (x + 2^23) - 2^23: it only means something with exact adders, so + and - are not
+            # abstracted here (* and / still are, on both sides)
+            c2.uf_float = tuple(u for u in c2.uf_float if u not in ('fadd', 'fsub'))
         if re.match(r'^glm_abs_i32_v_v\d$', c2.fn):
             L = int(c2.fn[-1])
             req.append(('not_int_min', ' && '.join('a%d != 0x80000000u' % i for i in range(L))))
@@ -99,6 +124,7 @@ def adapt(modname, c2):
 
 
 pure_builds = {}
+rel_done = set()
 for modname, rx, quick_isa, simd_rx in SOURCES:
     try:
         m = importlib.import_module(modname)
@@ -115,37 +141,49 @@ for modname, rx, quick_isa, simd_rx in SOURCES:
             if b0.mode != 'flat' or any(d.startswith('GLM_FORCE_') and d not in ('GLM_FORCE_QUAT_DATA_WXYZ',) for d in b0.defines):
                 continue
             why = excluded(c.fn, isa)
+            rel_n = [n for rx_, irx_, n in REL if re.search(rx_, c.fn) and re.search(irx_, isa)]
             if why:
                 P.excluded.append((c.fn, isa, why))
-                if not (modname == 'C01' and c.fn.startswith('glm_fma_')) and not (modname == 'C12' and c.fn.startswith('glm_normalize_v4')):
-                    continue
-            if b0.tag not in bmap:
-                bmap[b0.tag] = P.build(b0.driver, 'flat', defines=list(b0.defines) + SIMD_DEFS, flags=list(b0.flags) + flags,
-                                       tag='%s_%s_%s' % (modname.lower(), b0.tag, isa))
-                bmap[b0.tag].only = set()
-            bs = bmap[b0.tag]
             tier = c.tier if (isa in quick_isa and re.search(simd_rx, c.fn) and not re.search(SLOW, c.fn)) else 'thorough'
-            if why:
-                # SIMD extraction against the GLM_FORCE_PURE extraction of the same shim at the same ISA flags (bitwise, NaN == NaN)
+            if rel_n and (modname, c.fn, isa) not in rel_done:
+                # SIMD extraction against the GLM_FORCE_PURE extraction of the same shim at the same ISA flags (bitwise, NaN == NaN); own pair
+                # of builds, so that the shim can also keep its reused contract in the ordinary SIMD build
+                rel_done.add((modname, c.fn, isa))
                 key = (modname, b0.tag, isa)
                 if key not in pure_builds:
-                    pure_builds[key] = P.build(b0.driver, 'flat', defines=list(b0.defines) + ['GLM_FORCE_PURE'], flags=list(b0.flags) + flags,
-                                               tag='%s_%s_%s_pure' % (modname.lower(), b0.tag, isa))
-                    pure_builds[key].only = set()
-                pb = pure_builds[key]
-                bs.only.add(c.fn)
+                    sb = P.build(b0.driver, 'flat', defines=list(b0.defines) + SIMD_DEFS, flags=list(b0.flags) + flags,
+                                 tag='%s_%s_%s_rel' % (modname.lower(), b0.tag, isa))
+                    pb = P.build(b0.driver, 'flat', defines=list(b0.defines) + ['GLM_FORCE_PURE'], flags=list(b0.flags) + flags,
+                                 tag='%s_%s_%s_pure' % (modname.lower(), b0.tag, isa))
+                    sb.only, pb.only = set(), set()
+                    pure_builds[key] = (sb, pb)
+                sb, pb = pure_builds[key]
+                sb.only.add(c.fn)
                 pb.only.add(c.fn)
                 s = b0.driver.shims[c.fn].view_sig()
                 args = ', '.join(nm for _, nm in s['ins'])
                 ens = []
                 for k, (t, on, cnt) in enumerate(s['outs']):
-                    for i in range(cnt):
+                    for i in range(cnt if rel_n[0] is None else min(cnt, rel_n[0])):
                         ens.append(('simd_%s_%d_is_pure_%s_%d' % (on, i, on, i), 'cspec_same32(%s[%d], R_%s__o%d_%d(%s))' % (on, i, c.fn, k, i, args)))
-                c2 = Contract(c.fn, '[SIMD %s vs GLM_FORCE_PURE] %s' % (isa, c.real), ensures=ens, build=bs.tag, rel=(pb.tag, [c.fn]), unwind=12,
-                              uf_float=('fmul', 'fdiv', 'fadd', 'fsub', 'sqrt'), timeout=300, tier=tier)
+                req = []
+                if c.fn.startswith('glm_normalize_'):
+                    # components of moderate magnitude (2^-20 <= |x| <= 2^20): x.x neither overflows nor underflows, so a counterexample is a
+                    # representative input (outside, both builds return 0/inf/NaN alike and an abstract rsqrt value does not replay)
+                    req = [('components_of_moderate_magnitude', ' && '.join(
+                        '((%s >= 9.5367431640625e-07f && %s <= 1048576.0f) || (%s <= -9.5367431640625e-07f && %s >= -1048576.0f))' % (nm, nm, nm, nm)
+                        for _, nm in s['ins']))]
+                c2 = Contract(c.fn, '[SIMD %s vs GLM_FORCE_PURE] %s' % (isa, c.real), requires=req, ensures=ens, build=sb.tag, rel=(pb.tag, [c.fn]), unwind=12,
+                              uf_float=('fmul', 'fdiv', 'fadd', 'fsub', 'sqrt'), timeout=300, tier=tier if isa in quick_isa else 'thorough')
                 P.contracts.append(c2)
                 P.reused.append((modname, c.fn + ' [rel]', isa))
+            if why:
                 continue
+            if b0.tag not in bmap:
+                bmap[b0.tag] = P.build(b0.driver, 'flat', defines=list(b0.defines) + SIMD_DEFS, flags=list(b0.flags) + flags,
+                                       tag='%s_%s_%s' % (modname.lower(), b0.tag, isa))
+                bmap[b0.tag].only = set()
+            bs = bmap[b0.tag]
             bs.only.add(c.fn)
             for u in c.uses:
                 bs.only.add(u)
@@ -153,7 +191,7 @@ for modname, rx, quick_isa, simd_rx in SOURCES:
             c2.build = bs.tag
             c2.real = '[SIMD %s] %s' % (isa, c.real)
             c2.tier = tier
-            adapt(modname, c2)
+            adapt(modname, c2, isa)
             P.contracts.append(c2)
             P.reused.append((modname, c.fn, isa))
 
